@@ -112,6 +112,9 @@ JoinAllRet(rc, count, t, uj) ==
             /\ ((~WIsZero(jto) /\ uj = 0) => WLt(t, WAdd(WAdd(jt0, jto), JoinSlack)))
        ELSE /\ ~WIsZero(jto)
             /\ WLe(WAdd(jt0, jto), t)
+            \* ... and giving up does not take longer than succeeding would have been allowed to: whatever the threads that
+            \* are still counted are doing (a long at-exit callback), the call is back by about its deadline
+            /\ (uj = 0 => WLt(t, WAdd(WAdd(jt0, jto), JoinSlack)))
     /\ UNCHANGED tvars
 
 (* end of the execution: everything launched has finished, every OS thread was joined, nothing leaked *)
